@@ -137,17 +137,18 @@ fn update_entry_artifact() -> Artifact {
     }
 }
 
-fn update_page_artifact() -> Artifact {
+/// `n` entries in one 512-byte page; 21 is the completely full page (no empty slot ends the log).
+fn update_page_artifact(n: u8) -> Artifact {
     use cascette_client_storage::index::update::{UpdateEntry, UpdatePage};
     use cascette_client_storage::index::{ArchiveLocation, UpdateStatus};
     let mut p = UpdatePage::new();
-    for i in 0..2u8 {
+    for i in 0..n {
         p.push(UpdateEntry::new([i + 1; 9], ArchiveLocation { archive_id: 1, archive_offset: 100 + u32::from(i) }, 10, UpdateStatus::Normal));
     }
     let bytes = p.to_bytes().to_vec();
     Artifact {
-        name: "update-page(2 entries)".into(),
-        regions: vec![0..23, 24..47],
+        name: if n == 2 { "update-page(2 entries)".to_string() } else { format!("update-page({n} entries)") },
+        regions: (0..usize::from(n)).map(|i| i * 24..i * 24 + 23).collect(),
         accept: Box::new(|d| {
             UpdatePage::from_bytes(d).map(|p| p.entries().iter().map(|e| format!("{:?}", (e.ekey, e.archive_location.clone(), e.encoded_size, e.status))).collect::<Vec<_>>())
         }),
@@ -380,7 +381,8 @@ fn run_artifacts(rep: &Report, tier: Tier) {
         archive_index_artifact(),
         lru_artifact(),
         Some(update_entry_artifact()),
-        Some(update_page_artifact()),
+        Some(update_page_artifact(2)),
+        Some(update_page_artifact(21)),
         idx_artifact(),
         Some(local_header_artifact()),
         Some(mime_artifact()),
